@@ -161,7 +161,8 @@ fn roundtrip(ctx: &mut Ctx, base: &Xstate, enc: &str, input: Cell, b: &[u8], sen
         let tagged = Cell::from(text.clone()).with_tags(tags);
         let dt = run_word(base, &dec_of(enc), &[tagged]);
         let back_t = dt.top.as_ref().and_then(bytes_of_cell);
-        ctx.check(dt.depth == 1 && back_t.as_deref() == Some(b), || format!("{} ; {} of the text carrying a tag", case, dec_of(enc)), || d.out.clone(), || dt.out.clone());
+        ctx.check(dt.depth == 1 && back_t.as_deref() == Some(b), || format!("{} ; {} of the text carrying a tag", case, dec_of(enc)),
+            || format!("ok b{}", bits_of_bytes(b).iter().map(|x| if *x { '1' } else { '0' }).collect::<String>()), || dt.out.clone());
     }
     Some(text)
 }
@@ -692,6 +693,26 @@ pub fn run(ctx: &mut Ctx) {
     }
 
     long_inputs(ctx, &base);
+
+    // zero85: `#` is both the digit 84 and the padding mark of the tail chunk, so valid text may contain runs of five
+    // and more `#` across chunk boundaries: a last full chunk ending in k digits 84 (the 32-bit value 85^k − 1 with any
+    // leading digits) followed by a padded tail of 1..3 bytes, after 0..2 ordinary chunks — every k, every tail length
+    for k in 1..=4u32 {
+        for lead in [0u32, 1, 41] {
+            let v: u64 = (lead as u64) * 85u64.pow(k) + (85u64.pow(k) - 1);
+            if v > u32::MAX as u64 { continue; }
+            for t in 0..=3usize {
+                for pre in 0..=2usize {
+                    let mut b: Vec<u8> = Vec::new();
+                    for i in 0..pre { b.extend_from_slice(&[0x86, 0x4F, 0xD2, 0x6F + i as u8]); }
+                    b.extend_from_slice(&(v as u32).to_be_bytes());
+                    for i in 0..t { b.push(0x41 + i as u8); }
+                    ctx.tag("z85:digit-84-run-before-the-tail");
+                    let _ = roundtrip(ctx, &base, "zero85", bytes_cell(&b), &b, false);
+                }
+            }
+        }
+    }
 
     // 4. exhaustive small scopes: every text of length ≤ 2 (quick) / ≤ 3 (thorough, reduced alphabet) over
     //    alphabet ∪ {padding, one outsider}, every single byte 0..=255 as a one-byte string where it is valid UTF-8
